@@ -103,12 +103,22 @@ func be8(v uint64) []byte {
 	return b[:]
 }
 
-func errStr(err error) string {
+func errStr(err error) (s string) {
 	if err == nil {
 		return "<nil>"
 	}
+	// an error VALUE may be a typed nil pointer whose Error method dereferences it: that is the library's
+	// defect (a non-nil error that cannot even be printed), never a reason for the check to crash
+	defer func() {
+		if p := recover(); p != nil {
+			s = fmt.Sprintf("err:<non-nil error of type %T whose Error() panics: %v>", err, p)
+		}
+	}()
 	return "err:" + err.Error()
 }
+
+// errText is err.Error() of an error the LIBRARY returned, safe against typed-nil values (see errStr).
+func errText(err error) string { return strings.TrimPrefix(errStr(err), "err:") }
 
 // ReplayOnly makes a check register its scenarios and return without exploring.
 var ReplayOnly bool
